@@ -2,19 +2,19 @@ package main
 
 // Rules added after the fourth seeding round; appended to the per-property explanation like extraExplanation.
 var extraExplanation4 = map[string]string{
-	"C01": " (R1.9) what the HTTP watch loop hands to requests parked for the next round is the encoding of the beacon the stream just delivered, or nothing; (R1.10) bytes handed out by bbolt (valid only inside the transaction) are followed forward through locals, closures and module callees and are only decoded, compared, measured or copied from, never stored or sent.",
-	"C02": " (R2.9) every store site writes a beacon that was verified, aggregated here, or is the genesis beacon (BLS signatures are unique, so two nodes can differ on a round only if one stored an unverified beacon); (R2.10) an Open of the database file that can time out on the file lock hands its error to the caller instead of turning it into a storage-format decision; (R2.1) the repair path is given the raw database.",
-	"C03": " (R3.7) no callback on a shared callback store is registered under a key a remote party chooses alone (the switch to the next group is one of these callbacks); (R3.8) removing a listener from the DKG-output fan-out keeps every other listener.",
-	"C04": " (R4.9) SyncManager.Run starts a bounded sync only while the stored head is below the bound (the fetch loop stops on equality only).",
-	"C05": " (R5.11) the aggregator recovers the signature with (threshold, size) of the live group, in that order; (R5.12) a sentinel error that some branch recognises with errors.Is is wrapped with %w wherever it is put into a new error.",
-	"C06": " (R6.8) the old and the new side of a resharing get the threshold, nodes, coefficients and share of their own epoch; (R6.9) the dispatcher hands every relayed packet to every sender (no iteration of its loops skips the send).",
-	"C07": " (R7.8) across the switch the aggregator reads threshold and size of the group live at each round; (R7.9) the final group lists each qualified node under the index its share was dealt for.",
-	"C08": " (R8.10) a proposal moves the state only if every joiner it names signed its own identity.",
+	"C01": " (R1.9) what the HTTP watch loop hands to requests parked for the next round is the encoding of the beacon the stream just delivered, or nothing; (R1.10) bytes handed out by bbolt (valid only inside the transaction) are followed forward through locals, closures and module callees and are only decoded, compared, measured or copied from, never stored or sent. (R1.11) a follower stores and verifies only under the chain whose recomputed hash the operator named.",
+	"C02": " (R2.9) every store site writes a beacon that was verified, aggregated here, or is the genesis beacon (BLS signatures are unique, so two nodes can differ on a round only if one stored an unverified beacon); (R2.10) an Open of the database file that can time out on the file lock hands its error to the caller instead of turning it into a storage-format decision; (R2.1) the repair path is given the raw database. (R2.11) the chain check, and the repair that writes through the raw store, never look above the stored head.",
+	"C03": " (R3.7) no callback on a shared callback store is registered under a key a remote party chooses alone (the switch to the next group is one of these callbacks); (R3.8) removing a listener from the DKG-output fan-out keeps every other listener. (R3.9) the output of a DKG is written group first and the share only once the group is on disk.",
+	"C04": " (R4.9) SyncManager.Run starts a bounded sync only while the stored head is below the bound (the fetch loop stops on equality only). (R4.10) the round a tick is labelled with comes from the same clock reading as its time; (R4.11) a bounded sync ends at its bound (also when the target round was stored meanwhile).",
+	"C05": " (R5.11) the aggregator recovers the signature with (threshold, size) of the live group, in that order; (R5.12) a sentinel error that some branch recognises with errors.Is is wrapped with %w wherever it is put into a new error. (R5.13) the gate refuses a partial because of its round only when it is beyond NextRound or not above the stored head; (R5.14) rounds obtained by sync pass the layer that tells the aggregator the head moved.",
+	"C06": " (R6.8) the old and the new side of a resharing get the threshold, nodes, coefficients and share of their own epoch; (R6.9) the dispatcher hands every relayed packet to every sender (no iteration of its loops skips the send). (R6.10) the share file of a later DKG replaces the previous content entirely; (R6.11) the share and group codecs carry every field (index included).",
+	"C07": " (R7.8) across the switch the aggregator reads threshold and size of the group live at each round; (R7.9) the final group lists each qualified node under the index its share was dealt for. (R7.10) the DKG state rebuilt from a group file takes genesis seed, genesis time, period, scheme, catch-up period and threshold from the same-named fields; (R7.11) the goroutine applying DKG outputs hands on a context detached from the request that created the process.",
+	"C08": " (R8.10) a proposal moves the state only if every joiner it names signed its own identity. (R8.11) every read of the DKG records returns its error on the failure edge; the value read is used only behind the success edge.",
 	"C09": " (R9.7) in applyPacketToState no branch taken before verifyMessage tests a value read from the packet; (R9.8) the validation of a proposal applies the epoch rules for every epoch.",
-	"C10": " (R10.8) a goroutine that feeds a channel handed to the caller closes it on every way out (tryNode abandons a failed peer when the channel closes); (R10.9) the repair path writes to the raw database, the normal path through the full store stack.",
+	"C10": " (R10.8) a goroutine that feeds a channel handed to the caller closes it on every way out (tryNode abandons a failed peer when the channel closes); (R10.9) the repair path writes to the raw database, the normal path through the full store stack. (R10.4) the permutation of peers indexes the list it was drawn for; (R10.10) the raw store overwrites a round it already holds (the repair path relies on it).",
 	"C11": " (R11.7) rounds obtained by sync are stored through the dispatching layer; (R11.8) every store layer forwards the beacon it was given (what is dispatched is what was stored).",
 	"C12": " (R12.9) the in-process stream's Send never waits for its reader (every select offering the beacon has a default branch); (R12.10) no blocking operation, in particular no stream, runs while the beacon-process lock is held.",
-	"C13": " (R13.10) on restart, group and share files are required only when the database records a completed DKG or the v1 files were just migrated; (R13.11) a hand-managed write transaction reports a failed commit to its caller (returned, or assigned to a named result; controls only on the pinned tree, which uses DB.Update).",
+	"C13": " (R13.10) on restart, group and share files are required only when the database records a completed DKG or the v1 files were just migrated; (R13.11) a hand-managed write transaction reports a failed commit to its caller (returned, or assigned to a named result; controls only on the pinned tree, which uses DB.Update). (R13.12) = R3.9.",
 	"C14": " (R14.11) the version interceptors (which run outside the recovery interceptor) read request fields only through nil-safe getters or pointers tested against nil.",
 	"C15": " (R15.5) the content of the database holding the shares is streamed out only into files made by the owner-only helper (positive and negative controls; no such copy exists on the pinned tree).",
 	"C16": " (R16.8) the freshness headers of the HTTP 'latest' answer are computed from the served round's own schedule and the clock, never from a round computed from the clock; (R16.9) the gate for partials of future rounds takes the next round from NextRound.",
